@@ -353,6 +353,42 @@ func (e *IntEnv) structural(v ssa.Value, b *ssa.BasicBlock, depth int) Itv {
 				return iv.meet(tr)
 			}
 		}
+	case *ssa.Parameter:
+		// a parameter of a private function: the hull of what its callers pass (readBytes(r, length-1))
+		if pathsProg != nil && depth < 8 && isInteger(x.Type()) {
+			f := x.Parent()
+			if obj, isFn := f.Object().(*types.Func); isFn && !obj.Exported() && f.Parent() == nil {
+				sites, esc := pathsProg.callSitesOf(f)
+				if len(esc) == 0 && len(sites) > 0 && len(sites) <= 12 {
+					idx := -1
+					for i, q := range f.Params {
+						if q == x {
+							idx = i
+						}
+					}
+					var hull Itv
+					first := true
+					for _, cs := range sites {
+						ci, isI := cs.(ssa.Instruction)
+						if !isI || idx < 0 || idx >= len(cs.Common().Args) || cs.Common().IsInvoke() {
+							return tr
+						}
+						if _, isGo := cs.(*ssa.Go); isGo {
+							return tr
+						}
+						iv := e.at(cs.Common().Args[idx], ci.Block(), depth+4)
+						if first {
+							hull, first = iv, false
+						} else {
+							hull = hull.join(iv)
+						}
+					}
+					if !first {
+						return hull.meet(tr)
+					}
+				}
+			}
+		}
 	case *ssa.Phi:
 		var out Itv
 		first := true
